@@ -121,3 +121,39 @@ fn a_chunking_with_an_empty_write_chunk_completes() {
     while out.is_none() { el.dispatch(Duration::from_millis(100), &mut out).unwrap(); assert!(t.elapsed() < Duration::from_secs(3), "the writer task never completed after an empty chunk"); }
     assert_eq!(out.unwrap(), b"abcd");
 }
+
+/// a vectored write that has to wait for room in the socket buffer is woken when the peer drains it (the peer sends
+/// nothing back and does not close, so only writability can wake the writer)
+#[test]
+fn a_blocked_vectored_write_is_woken_when_the_peer_drains_the_socket() {
+    use std::io::IoSlice;
+    let mut el: EventLoop<Option<Vec<u8>>> = EventLoop::try_new().unwrap();
+    let h = el.handle();
+    let (ex, sched) = executor::<Option<Vec<u8>>>().unwrap();
+    h.insert_source(ex, |r, _, out: &mut Option<Vec<u8>>| if r.is_some() { *out = r }).unwrap();
+    let (tx, rx) = UnixStream::pair().unwrap();
+    let (mut tx, mut rx) = (h.adapt_io(tx).unwrap(), h.adapt_io(rx).unwrap());
+    const N: usize = 1 << 20;
+    let data: Vec<u8> = (0..N as u32).map(|i| (i * 31 + i / 977) as u8).collect();
+    let d2 = data.clone();
+    sched.schedule(async move {
+        let mut off = 0;
+        while off < d2.len() {
+            let mid = (off + 1000).min(d2.len());
+            let end = (off + 70_000).min(d2.len());
+            off += tx.write_vectored(&[IoSlice::new(&d2[off..mid]), IoSlice::new(&d2[mid..end])]).await.unwrap();
+        }
+        // keep tx open until the reader has everything: nothing but writability may wake this task
+        futures::future::pending::<()>().await;
+        None
+    }).unwrap();
+    sched.schedule(async move {
+        let mut got = vec![0u8; N];
+        rx.read_exact(&mut got).await.unwrap();
+        Some(got)
+    }).unwrap();
+    let mut out = None;
+    let t = Instant::now();
+    while out.is_none() { el.dispatch(Duration::from_millis(100), &mut out).unwrap(); assert!(t.elapsed() < Duration::from_secs(10), "the writer was never woken after the reader drained the socket buffer"); }
+    assert!(out.unwrap() == data);
+}
